@@ -235,3 +235,35 @@ impl G2Element {
         unimplemented!()
     }
 }
+
+// R6: Vec::extend_from_within has no vstd specification
+#[verifier::external_body]
+pub fn vec_extend_from_within(v: &mut Vec<u8>, r: core::ops::Range<usize>)
+    requires
+        r.start <= r.end <= old(v)@.len(),
+    ensures
+        final(v)@ =~= old(v)@ + old(v)@.subrange(r.start as int, r.end as int),
+{
+    v.extend_from_within(r)
+}
+
+pub trait VecU8Ext {
+    spec fn as_seq(&self) -> Seq<u8>;
+
+    fn extend_from_within_v(&mut self, r: core::ops::Range<usize>)
+        requires
+            r.start <= r.end <= old(self).as_seq().len(),
+        ensures
+            final(self).as_seq() =~= old(self).as_seq() + old(self).as_seq().subrange(r.start as int, r.end as int),
+    ;
+}
+
+impl VecU8Ext for Vec<u8> {
+    spec fn as_seq(&self) -> Seq<u8> {
+        self@
+    }
+
+    fn extend_from_within_v(&mut self, r: core::ops::Range<usize>) {
+        vec_extend_from_within(self, r)
+    }
+}
